@@ -153,11 +153,14 @@ def run(rc):
     rc.rule = (f'(a) all strings over {{a,space,LF,CR}} of length <= {maxlen} x all offsets 0..len x '
                '{TextLinesCursor, BufferCursor, Buffer} x {lineinfo, lineat/posline, poscol, get_line, linecount} '
                'against an independent splitter; non-trivial = offset on a line other than the first. '
-               '(b) parseinfo over the named-rule grammar corpus, see coverage.partb')
+               '(b) parseinfo over the named-rule grammar corpus, see coverage.partb. (c) parseinfo of model nodes: the type-annotated templates of C07 x all inputs '
+               'over their alphabet with blanks and line breaks; rule belongs to the class, span re-parses from that rule to the same node, see coverage.partc')
     rc.pmap(shard, texts(maxlen), chunk=400)
     rc.coverage['parta_texts'] = rc.count('texts')
     from . import c12b
     c12b.run_partb(rc)
+    from . import c12c
+    c12c.run_partc(rc)
     rc.assumptions += [
         'line breaks are LF, CR, CRLF (the property\'s alphabet); other Unicode line separators are not enumerated',
         'at offset == len(text) only validity (existing line, col within it) is required, as the existing tests pin',
